@@ -360,7 +360,7 @@ static TOut run_transform(Ctx &c, const Op &op, void *obj, const sim::OpSim &cfg
         B.fill(dirty_bufs, derive_seed(gseed, 3));
         uint64_t *outp = inplace ? X.p() : O.p();
         t.st = simulate(cfg, [&] {
-            void *o = obj ? obj : shim::ntt_new(op.maxn, op.obj_threads, 1);
+            void *o = obj ? obj : shim::ntt_new((op.maxn == 0 && op.n == 0) ? 0 : std::max<uint64_t>(op.maxn, std::max<uint64_t>(op.n, 1)), op.obj_threads, 1);
             shim::ntt_extendPol(o, outp, X.p(), op.n_ext, op.n, ncols, op.buffer ? B.p() : nullptr, op.nphase, op.nblock);
             if (!obj)
                 shim::ntt_delete(o);
@@ -402,7 +402,7 @@ static TOut run_transform(Ctx &c, const Op &op, void *obj, const sim::OpSim &cfg
     }
     std::vector<uint64_t> mid;
     t.st = simulate(cfg, [&] {
-        void *o = obj ? obj : shim::ntt_new(op.maxn, op.obj_threads, 1);
+        void *o = obj ? obj : shim::ntt_new((op.maxn == 0 && op.n == 0) ? 0 : std::max<uint64_t>(op.maxn, std::max<uint64_t>(op.n, 1)), op.obj_threads, 1);
         if (first_inverse)
             (op.inv_via_ntt ? shim::ntt_NTT_inverse : shim::ntt_INTT)(o, d1, S.p(), op.n, ncols, op.buffer ? B.p() : nullptr, op.nphase, op.nblock);
         else
@@ -462,7 +462,9 @@ static void ensure_slot(Ctx &c, const Op &op)
         sim::OpSim cfg;
         cfg.dirty_heap = op.dirty_heap;
         cfg.garbage_seed = derive_seed(op.garbage_seed, 99);
-        uint64_t maxn = std::max<uint64_t>(op.maxn, need);
+        uint64_t maxn = (op.maxn == 0 && op.n == 0) ? 0 : std::max<uint64_t>(op.maxn, need);
+        if (maxn == 0)
+            c.res.probes.insert("object_for_maxDomainSize_0");
         void *o = nullptr;
         auto st = simulate(cfg, [&] { o = shim::ntt_new(maxn, op.obj_threads, 1); });
         account_memory(c, op, st, "object construction");
